@@ -8,7 +8,10 @@ props = [json.loads(l) for l in open(os.path.join(ROOT, "properties.jsonl"))]
 META = json.load(open(os.path.join(ROOT, "tools", "manifest_meta.json")))
 for f in sorted(glob.glob(os.path.join(ROOT, "checks", "c*.meta.json"))):
     pid = os.path.basename(f).split(".")[0].upper()
-    META.setdefault(pid, {}).update(json.load(open(f)))
+    d = json.load(open(f))
+    META.setdefault(pid, {})
+    for k, v in d.items():
+        META[pid][k] = v
 checks, na = [], []
 for p in props:
     pid = p["id"]
@@ -22,9 +25,9 @@ for p in props:
             "evidence_file": f"/verif/evidence/{pid}.json",
             "replay_cmd_template": f"/venv/bin/python vcheck.py {pid} --replay {{path}}",
             "engine": "simkit",
-            "level_claimed": {"category": "exploration", "text": m["level_text"], "design_ref": f"DESIGN.md section 5, {pid}"},
+            "level_claimed": {"category": "exploration", "text": m["level_text"] + (" Method: " + m["technique"] if m.get("technique_short") and m.get("technique") else ""), "design_ref": f"DESIGN.md section 5, {pid}"},
             "level_note": m["level_note"],
-            "technique": m["technique"],
+            "technique": m.get("technique_short") or m["technique"][:200],
         })
     else:
         na.append({"property_id": pid, "reason": m.get("not_applicable") or "check not built yet (work in progress); see DESIGN.md section 5 for the plan"})
